@@ -698,4 +698,283 @@ Proof.
       destruct (R eq_refl D P) as [A|Eq]; [ab A|]. rewrite Eq. right. cbn. now rewrite set_pos_set_pos.
 Qed.
 
+
+(* ================================================================ S: simulation memo / no-memo *)
+Notation cache_t := (list ((nat * nat) * (cres * nat))) (only parsing).
+
+Definition expected (cr : cres) (np : nat) (s' : st) : out :=
+  match cr with CNoMatch => Fail (set_pos np s') | CRes r => Ok r (set_pos np s') end.
+
+(* a cache entry is what the un-memoized interpreter returns at that position, from any later state *)
+Definition valid (nid p : nat) (cr : cres) (np : nat) (s : st) : Prop :=
+  forall fuel psq s', cpos_id (cpos s') -> dom s s' -> pos s' = p ->
+    is_abort (parse g input orc false fuel nid psq s') = true \/
+    parse g input orc false fuel nid psq s' = expected cr np s'.
+
+Definition INV (c : cache_t) (s : st) : Prop :=
+  forall nid p cr np, clookup nid p c = Some (cr, np) -> valid nid p cr np s.
+
+Lemma INV_mono c s s2 : dom s s2 -> INV c s -> INV c s2.
+Proof.
+  intros D I nid p cr np L fuel psq s' C' D' P'. apply (I nid p cr np L); auto. eapply dom_trans; eassumption.
+Qed.
+
+Definition rec_sim (recN recM : parser) : Prop :=
+  forall c psq (cch : cache_t) sn, cpos_id (cpos sn) -> INV cch sn ->
+    is_abort (recN c psq sn) = false ->
+    exists cch', recM c psq (set_cache cch sn) = omap (set_cache cch') (recN c psq sn)
+                 /\ INV cch' (ostate sn (recN c psq sn)).
+
+Section S1.
+Variables recN recM : parser.
+Hypothesis Hg : rec_good recN.
+Hypothesis Hs : rec_sim recN recM.
+
+Lemma sim_ok c psq (cch : cache_t) s r s1 :
+  recN c psq s = Ok r s1 -> cpos_id (cpos s) -> INV cch s ->
+  exists cch', recM c psq (set_cache cch s) = Ok r (set_cache cch' s1) /\ INV cch' s1 /\ cpos_id (cpos s1) /\ dom s s1.
+Proof.
+  intros E C I. pose proof (Hs c psq cch s C I) as R. pose proof (Hg c psq s C) as G.
+  rewrite E in R, G. destruct (R eq_refl) as (cch' & Eq & I'). destruct G. exists cch'. auto.
+Qed.
+Lemma sim_fail c psq (cch : cache_t) s s1 :
+  recN c psq s = Fail s1 -> cpos_id (cpos s) -> INV cch s ->
+  exists cch', recM c psq (set_cache cch s) = Fail (set_cache cch' s1) /\ INV cch' s1 /\ cpos_id (cpos s1) /\ dom s s1.
+Proof.
+  intros E C I. pose proof (Hs c psq cch s C I) as R. pose proof (Hg c psq s C) as G.
+  rewrite E in R, G. destruct (R eq_refl) as (cch' & Eq & I'). destruct G. exists cch'. auto.
+Qed.
+
+Definition sim_goal (oN : out) (oM : out) (s : st) : Prop :=
+  exists cch' : cache_t, oM = omap (set_cache cch') oN /\ INV cch' (ostate s oN).
+
+Lemma seq_loop_sim psq kids : forall acc (cch : cache_t) s,
+  cpos_id (cpos s) -> INV cch s -> is_abort (seq_loop recN psq kids acc s) = false ->
+  sim_goal (seq_loop recN psq kids acc s) (seq_loop recM psq kids acc (set_cache cch s)) s.
+Proof.
+  induction kids as [|c kids IH]; intros acc cch s C I NA; cbn [seq_loop] in *.
+  - exists cch. auto.
+  - destruct (recN c psq s) as [r s1|s1|w] eqn:E; try discriminate NA.
+    + destruct (sim_ok c psq cch s r s1 E C I) as (cch1 & Eq & I1 & C1 & D1). rewrite Eq.
+      destruct (IH (if truthy r then acc ++ [r] else acc) cch1 s1 C1 I1 NA) as (cch2 & Eq2 & I2).
+      exists cch2. split; [exact Eq2|]. now rewrite (na_ostate s s1).
+    + destruct (sim_fail c psq cch s s1 E C I) as (cch1 & Eq & I1 & C1 & D1). rewrite Eq.
+      exists cch1. auto.
+Qed.
+
+Lemma choice_loop_sim cp kids : forall (cch : cache_t) s,
+  cpos_id (cpos s) -> INV cch s -> is_abort (choice_loop recN cp kids s) = false ->
+  sim_goal (choice_loop recN cp kids s) (choice_loop recM cp kids (set_cache cch s)) s.
+Proof.
+  induction kids as [|c kids IH]; intros cch s C I NA; cbn [choice_loop] in *.
+  - exists cch. auto.
+  - destruct (recN c false s) as [r s1|s1|w] eqn:E; try discriminate NA.
+    + destruct (sim_ok c false cch s r s1 E C I) as (cch1 & Eq & I1 & C1 & D1). rewrite Eq.
+      destruct (is_none r).
+      * destruct (IH cch1 s1 C1 I1 NA) as (cch2 & Eq2 & I2).
+        exists cch2. split; [exact Eq2|]. now rewrite (na_ostate s s1).
+      * exists cch1. auto.
+    + destruct (sim_fail c false cch s s1 E C I) as (cch1 & Eq & I1 & C1 & D1). rewrite Eq.
+      assert (I1' : INV cch1 (set_pos cp s1)) by (eapply INV_mono; [apply dom_set_pos_r, dom_refl | exact I1]).
+      destruct (IH cch1 (set_pos cp s1) C1 I1' NA) as (cch2 & Eq2 & I2).
+      exists cch2. split; [exact Eq2|]. now rewrite (na_ostate s (set_pos cp s1)).
+Qed.
+
+Lemma rep_loop_sim e sep plus k : forall first acc (cch : cache_t) s,
+  cpos_id (cpos s) -> INV cch s -> is_abort (rep_loop recN e sep plus k first acc s) = false ->
+  sim_goal (rep_loop recN e sep plus k first acc s) (rep_loop recM e sep plus k first acc (set_cache cch s)) s.
+Proof.
+  induction k as [|k IH]; intros first acc cch s C I NA; cbn [rep_loop] in *; [discriminate NA|].
+  cbn [pos set_cache].
+  set (elem := fun (rc : parser) (acc1 : list res) (s1 : st) =>
+        match rc e false s1 with
+        | Ok r s2 => if truthy r then rep_loop rc e sep plus k false (acc1 ++ [r]) s2
+                     else Ok (RList acc1) s2
+        | Fail s2 => if (plus && first)%bool then Fail (set_pos (pos s) s2)
+                     else Ok (RList acc1) (set_pos (pos s) s2)
+        | Abort w => Abort w
+        end).
+  assert (Helem : forall acc1 (cch1 : cache_t) s1, cpos_id (cpos s1) -> INV cch1 s1 ->
+            is_abort (elem recN acc1 s1) = false ->
+            sim_goal (elem recN acc1 s1) (elem recM acc1 (set_cache cch1 s1)) s1).
+  { intros acc1 cch1 s1 C1 I1 NA1. unfold elem in *.
+    destruct (recN e false s1) as [r s2|s2|w] eqn:E; try discriminate NA1.
+    - destruct (sim_ok e false cch1 s1 r s2 E C1 I1) as (cch2 & Eq & I2 & C2 & D2). rewrite Eq.
+      destruct (truthy r).
+      + destruct (IH false (acc1 ++ [r]) cch2 s2 C2 I2 NA1) as (cch3 & Eq3 & I3).
+        exists cch3. split; [exact Eq3|]. now rewrite (na_ostate s1 s2).
+      + exists cch2. auto.
+    - destruct (sim_fail e false cch1 s1 s2 E C1 I1) as (cch2 & Eq & I2 & C2 & D2). rewrite Eq.
+      exists cch2. destruct (plus && first)%bool; (split; [reflexivity|]); cbn;
+        (eapply INV_mono; [apply dom_set_pos_r, dom_refl | exact I2]). }
+  fold (elem recN) in NA |- *. fold (elem recM).
+  destruct sep as [sp|]; [|now apply Helem].
+  destruct first; [now apply Helem|].
+  destruct (recN sp false s) as [sr s1|s1|w] eqn:E; try discriminate NA.
+  - destruct (sim_ok sp false cch s sr s1 E C I) as (cch1 & Eq & I1 & C1 & D1). rewrite Eq.
+    destruct (Helem (if truthy sr then acc ++ [sr] else acc) cch1 s1 C1 I1 NA) as (cch2 & Eq2 & I2).
+    exists cch2. split; [exact Eq2|]. now rewrite (na_ostate s s1).
+  - destruct (sim_fail sp false cch s s1 E C I) as (cch1 & Eq & I1 & C1 & D1). rewrite Eq.
+    rewrite andb_false_r in *. exists cch1. split; [reflexivity|]. cbn.
+    eapply INV_mono; [apply dom_set_pos_r, dom_refl | exact I1].
+Qed.
+
+Lemma raise_sim p (cch : cache_t) s : INV cch s ->
+  sim_goal (nm_raise p s) (nm_raise p (set_cache cch s)) s.
+Proof.
+  intro I. exists cch. unfold nm_raise. rewrite reg_fail_cache. split; [reflexivity|]. cbn.
+  eapply INV_mono; [apply dom_reg_fail | exact I].
+Qed.
+
+Lemma body0_sim k nd : is_unord (n_kind nd) = false -> forall (cch : cache_t) s,
+  cpos_id (cpos s) -> INV cch s -> is_abort (body0 recN k nd s) = false ->
+  sim_goal (body0 recN k nd s) (body0 recM k nd (set_cache cch s)) s.
+Proof.
+  intros NU cch s C I NA. unfold body0 in *. cbn [pos set_cache].
+  destruct (n_kind nd); try discriminate NA; try discriminate NU.
+  - pose proof (seq_loop_sim true (n_kids nd) [] cch s C I) as R.
+    destruct (seq_loop recN true (n_kids nd) [] s) as [r s1|s1|w] eqn:E; try discriminate NA;
+      destruct (R eq_refl) as (cch1 & Eq & I1); rewrite Eq; cbn; exists cch1.
+    + split; [destruct r as [|t|[|x l]]; reflexivity|]. destruct r as [|t|[|x l]]; exact I1.
+    + split; [reflexivity|]. cbn. eapply INV_mono; [apply dom_set_pos_r, dom_refl | exact I1].
+  - pose proof (choice_loop_sim (pos s) (n_kids nd) cch s C I) as R.
+    destruct (choice_loop recN (pos s) (n_kids nd) s) as [r s1|s1|w] eqn:E; try discriminate NA;
+      destruct (R eq_refl) as (cch1 & Eq & I1); rewrite Eq; cbn.
+    + destruct (is_none r).
+      * destruct (raise_sim (pos s) cch1 s1 I1) as (cch2 & Eq2 & I2). exists cch2. split; [exact Eq2|].
+        cbn in I2 |- *. exact I2.
+      * exists cch1. auto.
+    + exists cch1. auto.
+  - destruct (n_kids nd) as [|e l]; [discriminate NA|].
+    destruct (recN e false s) as [r s1|s1|w] eqn:E; try discriminate NA.
+    + destruct (sim_ok e false cch s r s1 E C I) as (cch1 & Eq & I1 & C1 & D1). rewrite Eq. exists cch1. auto.
+    + destruct (sim_fail e false cch s s1 E C I) as (cch1 & Eq & I1 & C1 & D1). rewrite Eq. exists cch1.
+      split; [reflexivity|]. cbn. eapply INV_mono; [apply dom_set_pos_r, dom_refl | exact I1].
+  - destruct (n_kids nd) as [|e l]; [discriminate NA|]. now apply rep_loop_sim.
+  - destruct (n_kids nd) as [|e l]; [discriminate NA|]. now apply rep_loop_sim.
+  - pose proof (seq_loop_sim false (n_kids nd) [] cch s C I) as R.
+    destruct (seq_loop recN false (n_kids nd) [] s) as [r s1|s1|w] eqn:E; try discriminate NA;
+      destruct (R eq_refl) as (cch1 & Eq & I1); rewrite Eq; cbn; exists cch1;
+      (split; [reflexivity|]); cbn; (eapply INV_mono; [apply dom_set_pos_r, dom_refl | exact I1]).
+  - pose proof (seq_loop_sim false (n_kids nd) [] cch s C I) as R.
+    destruct (seq_loop recN false (n_kids nd) [] s) as [r s1|s1|w] eqn:E; try discriminate NA;
+      destruct (R eq_refl) as (cch1 & Eq & I1); rewrite Eq; cbn.
+    + assert (I1' : INV cch1 (set_pos (pos s) s1)) by (eapply INV_mono; [apply dom_set_pos_r, dom_refl | exact I1]).
+      destruct (raise_sim (pos s) cch1 (set_pos (pos s) s1) I1') as (cch2 & Eq2 & I2).
+      exists cch2. split; [exact Eq2|]. cbn in I2 |- *. exact I2.
+    + exists cch1. split; [reflexivity|]. cbn. eapply INV_mono; [apply dom_set_pos_r, dom_refl | exact I1].
+  - exists cch. auto.
+Qed.
+
+End S1.
+
+
+Lemma parse_S m f nid psq s :
+  parse g input orc m (S f) nid psq s =
+  match get_node g nid with
+  | None => Abort 1
+  | Some nd =>
+    if is_match_kind (n_kind nd) then
+      match match_pre g input (parse g input orc m f) f s with
+      | Ok _ s1 =>
+        match term_parse input orc nid (n_kind nd) psq s1 with
+        | Ok r s2 => Ok (if n_suppress nd then RNone else r) s2
+        | o => o
+        end
+      | o => o
+      end
+    else
+      let c_pos := pos s in
+      match (if m then clookup nid c_pos (cache s) else None) with
+      | Some (CNoMatch, np) => Fail (set_pos np s)
+      | Some (CRes r, np) => Ok r (set_pos np s)
+      | None =>
+        match body (parse g input orc m f) f nd s with
+        | Ok r s1 =>
+          let r' := post nid nd r in
+          Ok r' (if m then cput nid c_pos (CRes r', pos s1) s1 else s1)
+        | Fail s1 =>
+          let s2 := set_pos c_pos s1 in
+          Fail (if m then cput nid c_pos (CNoMatch, c_pos) s2 else s2)
+        | Abort w => Abort w
+        end
+      end
+  end.
+Proof. reflexivity. Qed.
+
+Lemma parse_psq m f nid nd psq psq' s :
+  get_node g nid = Some nd -> is_match_kind (n_kind nd) = false ->
+  parse g input orc m f nid psq s = parse g input orc m f nid psq' s.
+Proof. intros Hn MK. destruct f; [reflexivity|]. rewrite !parse_S, Hn, MK. reflexivity. Qed.
+
+Lemma parse_sim f : rec_sim (parse g input orc false f) (parse g input orc true f).
+Proof.
+  induction f as [|f IH]; intros nid psq cch sn C I NA; [discriminate NA|].
+  pose proof (parse_rerun (S f)) as RR. pose proof (parse_good (S f) nid psq sn C) as GG.
+  rewrite (parse_S true). rewrite (parse_S false) in NA.
+  destruct (get_node g nid) as [nd|] eqn:Hn; [|discriminate NA].
+  destruct (is_match_kind (n_kind nd)) eqn:MK.
+  - (* terminals are not memoized *)
+    rewrite (parse_S false), Hn, MK. rewrite !match_pre_eq in *. rewrite mpre_cache, term_cache.
+    exists cch. destruct (term_parse input orc nid (n_kind nd) psq (mpre sn)) as [r s1|s1|w] eqn:E;
+      try discriminate NA; (split; [reflexivity|]); cbn;
+      rewrite (parse_S false), Hn, MK, match_pre_eq, E in GG; destruct GG as [D1 _];
+      (eapply INV_mono; [exact D1 | exact I]).
+  - cbn [pos set_cache cache].
+    destruct (clookup nid (pos sn) cch) as [[cr np]|] eqn:L.
+    + (* cache hit *)
+      destruct (I nid (pos sn) cr np L (S f) psq sn C (dom_refl sn) eq_refl) as [A|Eq].
+      * rewrite (parse_S false), Hn, MK in A. cbn in A, NA. congruence.
+      * rewrite Eq. exists cch. destruct cr; (split; [reflexivity|]); cbn;
+          (eapply INV_mono; [apply dom_set_pos_r, dom_refl | exact I]).
+    + (* cache miss *)
+      destruct (node_free4 _ _ Hn) as (_ & _ & _ & NU).
+      cbn in NA. rewrite (body_eq _ _ _ _ _ Hn) in NA. rewrite (body_eq _ _ _ _ _ Hn).
+      pose proof (body0_sim _ _ (parse_good f) IH f nd NU cch sn C I) as R.
+      assert (Hnm : parse g input orc false (S f) nid psq sn =
+                    match body0 (parse g input orc false f) f nd sn with
+                    | Ok r s1 => Ok (post nid nd r) s1
+                    | Fail s1 => Fail (set_pos (pos sn) s1)
+                    | Abort w => Abort w end).
+      { rewrite (parse_S false), Hn, MK. cbn. now rewrite (body_eq _ _ _ _ _ Hn). }
+      rewrite Hnm in *.
+      destruct (body0 (parse g input orc false f) f nd sn) as [r s1|s1|w] eqn:E; try discriminate NA;
+        destruct (R eq_refl) as (cch1 & Eq & I1); rewrite Eq; cbn [omap].
+      * exists (((nid, pos sn), (CRes (post nid nd r), pos s1)) :: cch1). split; [reflexivity|].
+        cbn [omap ostate] in *. intros nid2 p2 cr2 np2 L2. cbn [clookup] in L2.
+        destruct (Nat.eqb nid2 nid && Nat.eqb p2 (pos sn))%bool eqn:K; [|exact (I1 _ _ _ _ L2)].
+        apply andb_true_iff in K as [K1 K2]. apply Nat.eqb_eq in K1, K2. subst nid2 p2.
+        injection L2 as <- <-. intros fuel' psq' s' C' D' P'.
+        pose proof (RR fuel' nid psq sn s' C C') as R2. rewrite Hnm in R2. cbn in R2.
+        rewrite (parse_psq false fuel' nid nd psq' psq s' Hn MK).
+        destruct (R2 eq_refl D' P') as [A|Eq2]; [now left | right; exact Eq2].
+      * exists (((nid, pos sn), (CNoMatch, pos sn)) :: cch1). split; [reflexivity|].
+        cbn [omap ostate] in *.
+        assert (I1' : INV cch1 (set_pos (pos sn) s1)) by (eapply INV_mono; [apply dom_set_pos_r, dom_refl | exact I1]).
+        intros nid2 p2 cr2 np2 L2. cbn [clookup] in L2.
+        destruct (Nat.eqb nid2 nid && Nat.eqb p2 (pos sn))%bool eqn:K; [|exact (I1' _ _ _ _ L2)].
+        apply andb_true_iff in K as [K1 K2]. apply Nat.eqb_eq in K1, K2. subst nid2 p2.
+        injection L2 as <- <-. intros fuel' psq' s' C' D' P'.
+        pose proof (RR fuel' nid psq sn s' C C') as R2. rewrite Hnm in R2. cbn in R2.
+        rewrite (parse_psq false fuel' nid nd psq' psq s' Hn MK).
+        destruct (R2 eq_refl D' P') as [A|Eq2]; [now left | right].
+        rewrite Eq2. cbn. try rewrite set_pos_set_pos. reflexivity.
+Qed.
+
+(* ================================================================ the theorem *)
+Definition not_aborted (o : outcome) : Prop := match o with Aborted _ => False | _ => True end.
+
+Theorem memo_safe c fuel :
+  not_aborted (run g c orc false fuel input) ->
+  run g c orc true fuel input = run g c orc false fuel input.
+Proof.
+  unfold run. intro NA.
+  assert (C0 : cpos_id (cpos (init_st c))) by (intros k v L; discriminate L).
+  assert (I0 : INV [] (init_st c)) by (intros nid p cr np L; discriminate L).
+  pose proof (parse_sim fuel (g_top g) false [] (init_st c) C0 I0) as R.
+  change (set_cache [] (init_st c)) with (init_st c) in R.
+  destruct (parse g input orc false fuel (g_top g) false (init_st c)) as [r s1|s1|w] eqn:E;
+    try contradiction; destruct (R eq_refl) as (cch' & Eq & _); rewrite Eq; reflexivity.
+Qed.
+
 End Memo.
